@@ -19,18 +19,18 @@ Definition agree (c : case) : bool :=
 Definition ident (c : case) : nat := let '(i, _, _, _, _) := c in i.
 Definition failing := failing_ids agree ident.
 
-(* STATIC correspondence (corr:C16-static): the harness extracts a draw skeleton from the SOURCE of every function /
-   class of tensorly that has a random_state (or seed) argument (Python ast: check_random_state bindings, draws on the
-   bound name, numpy.random module-level draws, calls of seed-accepting callees with the expression passed as
-   random_state, callee bodies inlined, constant keyword arguments propagated into `if` tests).  The extracted
-   skeleton is option-insensitive (data-dependent tests are Branch nodes, a generator may be bound in one branch
-   only), so it is judged by the join-precise analysis [global_free_w] (sound: Props C16_join_precise_analysis): no
-   draw reaches the global generator when random_state is an int or a generator object ([must]); and it may not be
-   draw-free when the hand-written skeletons of that entry point draw. *)
-Definition scase := (nat * bool * skel * list skel)%type.
+(* STATIC correspondence (corr:C16-static): the harness translates the SOURCE of every function / class of tensorly
+   that has a random_state (or seed) argument into a term of the Python-shaped language [pskel] of Model/Draws.v
+   (Python ast; names are kept: `x = e`, `x = check_random_state(e)`, `x.<sampler>()`, numpy.random draws, calls of
+   seed-accepting callees -- resolved by module-qualified name -- with the expression passed as random_state, callee
+   bodies inlined, constant keyword arguments propagated into `if` tests).  The abstraction (which names may hold the
+   global generator) is made HERE by [pgf], proved sound w.r.t. the semantics [prun] (Props C16_source_analysis):
+   [must] = no draw reaches the global generator when random_state is an int or a generator object; and the
+   extracted skeleton may not be draw-free when the hand-written skeletons of that entry point draw. *)
+Definition scase := (nat * bool * pskel * list skel)%type.
 Definition agree_static (c : scase) : bool :=
   let '(_, must, sk, models) := c in
-  (if must then global_free_w sk else true) &&
-  implb (draw_free sk) (forallb draw_free models).
+  (if must then pglobal_free sk else true) &&
+  implb (pdraw_free sk) (forallb draw_free models).
 Definition ident_static (c : scase) : nat := let '(i, _, _, _) := c in i.
 Definition failing_static := failing_ids agree_static ident_static.
